@@ -60,7 +60,9 @@ SaveLoadTiff(depth) == /\ Mode \in {"tiff", "tiffcolour"} /\ steps < 1
                        /\ (Mode = "tiffcolour" => depth = 8)        \* 16-bit colour is not a TIFF the imaging library writes
                        /\ hist' = Append(hist, <<"tiff", depth, UsableBits(depth)>>)
                        /\ steps' = steps + 1 /\ UNCHANGED img
-UpdateMetadata(K) == /\ Mode = "update" /\ steps < 1 /\ K # {}
+\* form: the new polarisation is written with two or with three components (not unit length either way)
+UpdateMetadata(K, form) == /\ Mode = "update" /\ steps < 1 /\ K # {}
+                     /\ (form = "three_components" => "illum_polarization" \in K)
                      /\ img' = [img EXCEPT !.attrs = [k \in Keys |-> IF k \in K THEN "scalar" ELSE img.attrs[k]]]
                      /\ hist' = Append(hist, K) /\ steps' = steps + 1
 Push(f) == /\ Mode = "average" /\ steps < MaxCycles + 1
@@ -69,7 +71,7 @@ Push(f) == /\ Mode = "average" /\ steps < MaxCycles + 1
 
 Next == \/ SaveLoadH5
         \/ \E d \in {8, 16} : SaveLoadTiff(d)          \* the documented depths
-        \/ \E K \in SUBSET Keys : UpdateMetadata(K)
+        \/ \E K \in SUBSET Keys, f \in {"two_components", "three_components"} : UpdateMetadata(K, f)
         \/ \E f \in 1..4 : Push(f)
 Spec == Init /\ [][Next]_vars
 
